@@ -1,5 +1,313 @@
-// C18: serialisation round trips (filled in below)
+// C18: serialisation.  For a value of any serialisable type:
+//   * the serde data-model calls its derive(Serialize) makes, recorded as a token stream
+//     (1 bits = f64; 10 id = newtype struct; 11 n = tuple; 12 id n = struct; 13 id = field; 14 n = seq);
+//   * its borsh bytes;
+//   * round trips through serde_json text (finite contents only), serde_cbor and borsh, compared bit for bit.
+use crate::{parse_segs, u64s, Num};
+use piecewise_polynomial::*;
+use serde::ser::{self, Serialize};
 use serde_json::Value;
-pub fn op_wire(_c: &Value) -> Vec<u64> {
-    panic!("HARNESS: wire op not built yet")
+
+#[derive(Debug)]
+pub struct RecErr(String);
+impl std::fmt::Display for RecErr {
+    fn fmt(&self, f: &mut std::fmt::Formatter) -> std::fmt::Result {
+        write!(f, "{}", self.0)
+    }
+}
+impl std::error::Error for RecErr {}
+impl ser::Error for RecErr {
+    fn custom<T: std::fmt::Display>(msg: T) -> Self {
+        RecErr(msg.to_string())
+    }
+}
+
+pub struct Rec {
+    pub out: Vec<u64>,
+}
+fn name_id(n: &str) -> u64 {
+    match n {
+        "Knot" => 1,
+        "Poly0" => 10,
+        "Poly1" => 11,
+        "Poly2" => 12,
+        "Poly3" => 13,
+        "Poly4" => 14,
+        "Poly5" => 15,
+        "Poly6" => 16,
+        "Poly7" => 17,
+        "Poly8" => 18,
+        "Log" => 20,
+        "IntOfLog" => 21,
+        "IntOfLogPoly4" => 22,
+        "Segment" => 23,
+        "Piecewise" => 24,
+        _ => 999,
+    }
+}
+fn field_id(n: &str) -> u64 {
+    match n {
+        "x" => 1,
+        "y" => 2,
+        "k" => 3,
+        "poly" => 4,
+        "coeffs" => 5,
+        "u" => 6,
+        "end" => 7,
+        "segments" => 8,
+        _ => 999,
+    }
+}
+macro_rules! unsupported {
+    ($($f:ident($($t:ty),*);)*) => { $( fn $f(self $(, _: $t)*) -> Result<Self::Ok, RecErr> { Err(RecErr(format!("unexpected {}", stringify!($f)))) } )* };
+}
+impl<'a> ser::Serializer for &'a mut Rec {
+    type Ok = ();
+    type Error = RecErr;
+    type SerializeSeq = Self;
+    type SerializeTuple = Self;
+    type SerializeTupleStruct = Self;
+    type SerializeTupleVariant = Self;
+    type SerializeMap = Self;
+    type SerializeStruct = Self;
+    type SerializeStructVariant = Self;
+    fn serialize_f64(self, v: f64) -> Result<(), RecErr> {
+        self.out.push(1);
+        self.out.push(v.to_bits());
+        Ok(())
+    }
+    fn serialize_newtype_struct<T: ?Sized + Serialize>(self, name: &'static str, value: &T) -> Result<(), RecErr> {
+        self.out.push(10);
+        self.out.push(name_id(name));
+        value.serialize(self)
+    }
+    fn serialize_tuple(self, len: usize) -> Result<Self, RecErr> {
+        self.out.push(11);
+        self.out.push(len as u64);
+        Ok(self)
+    }
+    fn serialize_struct(self, name: &'static str, len: usize) -> Result<Self, RecErr> {
+        self.out.push(12);
+        self.out.push(name_id(name));
+        self.out.push(len as u64);
+        Ok(self)
+    }
+    fn serialize_seq(self, len: Option<usize>) -> Result<Self, RecErr> {
+        self.out.push(14);
+        self.out.push(len.map(|l| l as u64).unwrap_or(u64::MAX));
+        Ok(self)
+    }
+    unsupported! {
+        serialize_bool(bool); serialize_i8(i8); serialize_i16(i16); serialize_i32(i32); serialize_i64(i64);
+        serialize_u8(u8); serialize_u16(u16); serialize_u32(u32); serialize_u64(u64); serialize_f32(f32);
+        serialize_char(char); serialize_str(&str); serialize_bytes(&[u8]); serialize_none(); serialize_unit();
+        serialize_unit_struct(&'static str);
+        serialize_unit_variant(&'static str, u32, &'static str);
+    }
+    fn serialize_some<T: ?Sized + Serialize>(self, _: &T) -> Result<(), RecErr> {
+        Err(RecErr("unexpected some".into()))
+    }
+    fn serialize_newtype_variant<T: ?Sized + Serialize>(self, _: &'static str, _: u32, _: &'static str, _: &T) -> Result<(), RecErr> {
+        Err(RecErr("unexpected newtype variant".into()))
+    }
+    fn serialize_tuple_struct(self, _: &'static str, _: usize) -> Result<Self, RecErr> {
+        Err(RecErr("unexpected tuple struct".into()))
+    }
+    fn serialize_tuple_variant(self, _: &'static str, _: u32, _: &'static str, _: usize) -> Result<Self, RecErr> {
+        Err(RecErr("unexpected tuple variant".into()))
+    }
+    fn serialize_map(self, _: Option<usize>) -> Result<Self, RecErr> {
+        Err(RecErr("unexpected map".into()))
+    }
+    fn serialize_struct_variant(self, _: &'static str, _: u32, _: &'static str, _: usize) -> Result<Self, RecErr> {
+        Err(RecErr("unexpected struct variant".into()))
+    }
+}
+impl<'a> ser::SerializeSeq for &'a mut Rec {
+    type Ok = ();
+    type Error = RecErr;
+    fn serialize_element<T: ?Sized + Serialize>(&mut self, v: &T) -> Result<(), RecErr> {
+        v.serialize(&mut **self)
+    }
+    fn end(self) -> Result<(), RecErr> {
+        Ok(())
+    }
+}
+impl<'a> ser::SerializeTuple for &'a mut Rec {
+    type Ok = ();
+    type Error = RecErr;
+    fn serialize_element<T: ?Sized + Serialize>(&mut self, v: &T) -> Result<(), RecErr> {
+        v.serialize(&mut **self)
+    }
+    fn end(self) -> Result<(), RecErr> {
+        Ok(())
+    }
+}
+impl<'a> ser::SerializeStruct for &'a mut Rec {
+    type Ok = ();
+    type Error = RecErr;
+    fn serialize_field<T: ?Sized + Serialize>(&mut self, key: &'static str, v: &T) -> Result<(), RecErr> {
+        self.out.push(13);
+        self.out.push(field_id(key));
+        v.serialize(&mut **self)
+    }
+    fn end(self) -> Result<(), RecErr> {
+        Ok(())
+    }
+}
+macro_rules! never_impl {
+    ($tr:ident, $m:ident $(, $k:ty)?) => {
+        impl<'a> ser::$tr for &'a mut Rec {
+            type Ok = ();
+            type Error = RecErr;
+            fn $m<T: ?Sized + Serialize>(&mut self, $(_: $k,)? _: &T) -> Result<(), RecErr> {
+                Err(RecErr("unexpected".into()))
+            }
+            fn end(self) -> Result<(), RecErr> {
+                Ok(())
+            }
+        }
+    };
+}
+never_impl!(SerializeTupleStruct, serialize_field);
+never_impl!(SerializeTupleVariant, serialize_field);
+never_impl!(SerializeStructVariant, serialize_field, &'static str);
+impl<'a> ser::SerializeMap for &'a mut Rec {
+    type Ok = ();
+    type Error = RecErr;
+    fn serialize_key<T: ?Sized + Serialize>(&mut self, _: &T) -> Result<(), RecErr> {
+        Err(RecErr("unexpected".into()))
+    }
+    fn serialize_value<T: ?Sized + Serialize>(&mut self, _: &T) -> Result<(), RecErr> {
+        Err(RecErr("unexpected".into()))
+    }
+    fn end(self) -> Result<(), RecErr> {
+        Ok(())
+    }
+}
+
+trait Bits {
+    fn bits(&self) -> Vec<u64>;
+    fn all_finite(&self) -> bool {
+        self.bits().iter().all(|&b| f64::from_bits(b).is_finite())
+    }
+}
+impl<T: Num> Bits for T {
+    fn bits(&self) -> Vec<u64> {
+        let mut o = Vec::new();
+        self.put(&mut o);
+        o
+    }
+}
+struct PwBits<'a, T: Num>(&'a Piecewise<T>);
+fn pw_bits<T: Num>(p: &Piecewise<T>) -> Vec<u64> {
+    let mut o = vec![p.segments.len() as u64];
+    for s in p.segments.iter() {
+        s.put(&mut o);
+    }
+    o
+}
+
+fn report<V>(v: &V, bits: &dyn Fn(&V) -> Vec<u64>) -> Vec<u64>
+where
+    V: Serialize + serde::de::DeserializeOwned + borsh::BorshSerialize + borsh::BorshDeserialize,
+{
+    let mut rec = Rec { out: Vec::new() };
+    let tokens = match Serialize::serialize(v, &mut rec) {
+        Ok(()) => rec.out,
+        Err(e) => panic!("HARNESS: recording serializer: {}", e),
+    };
+    let orig = bits(v);
+    let finite = orig.iter().skip(0).all(|&b| f64::from_bits(b).is_finite() || b < (1u64 << 32));
+    // serde_json text (finite contents only: JSON has no inf/NaN)
+    let json_ok: u64 = if finite {
+        let text = serde_json::to_string(v).expect("to_string");
+        match serde_json::from_str::<V>(&text) {
+            Ok(back) => (bits(&back) == orig) as u64,
+            Err(_) => 0,
+        }
+    } else {
+        2
+    };
+    let cbor_ok: u64 = match serde_cbor::to_vec(v) {
+        Ok(buf) => match serde_cbor::from_slice::<V>(&buf) {
+            Ok(back) => (bits(&back) == orig) as u64,
+            Err(_) => 0,
+        },
+        Err(_) => 0,
+    };
+    let (bytes, borsh_ok): (Vec<u8>, u64) = match borsh::to_vec(v) {
+        Ok(buf) => {
+            let ok = match borsh::from_slice::<V>(&buf) {
+                Ok(back) => (bits(&back) == orig) as u64,
+                Err(_) => 0,
+            };
+            (buf, ok)
+        }
+        Err(_) => (Vec::new(), 3),
+    };
+    let mut o = vec![tokens.len() as u64];
+    o.extend(tokens);
+    o.push(bytes.len() as u64);
+    o.extend(bytes.iter().map(|&b| b as u64));
+    o.push(json_ok);
+    o.push(cbor_ok);
+    o.push(borsh_ok);
+    o
+}
+
+fn wire_value<T>(c: &Value) -> Vec<u64>
+where
+    T: Num + Serialize + serde::de::DeserializeOwned + borsh::BorshSerialize + borsh::BorshDeserialize,
+{
+    let v = T::of(&u64s(&c["v"]));
+    report(&v, &|x: &T| x.bits())
+}
+fn wire_pw<T>(c: &Value) -> Vec<u64>
+where
+    T: Num + Serialize + serde::de::DeserializeOwned + borsh::BorshSerialize + borsh::BorshDeserialize,
+{
+    let v = Piecewise { segments: parse_segs::<T>(&c["segs"]) };
+    let _ = PwBits(&v);
+    report(&v, &|x: &Piecewise<T>| pw_bits(x))
+}
+
+macro_rules! by_type {
+    ($ty:expr; $f:ident($c:expr)) => {{
+        let ty: &str = $ty;
+        let mut res: Option<Vec<u64>> = None;
+        macro_rules! go { ($t:ty) => { if res.is_none() && ty == <$t as Num>::name() { res = Some($f::<$t>($c)); } } }
+        go!(Poly0); go!(Poly1); go!(Poly2); go!(Poly3); go!(Poly4); go!(Poly5); go!(Poly6); go!(Poly7); go!(Poly8);
+        go!(Log<Poly0>); go!(Log<Poly1>); go!(Log<Poly2>); go!(Log<Poly3>); go!(Log<Poly4>); go!(Log<Poly5>); go!(Log<Poly6>); go!(Log<Poly7>); go!(Log<Poly8>);
+        go!(IntOfLog<Poly0>); go!(IntOfLog<Poly1>); go!(IntOfLog<Poly2>); go!(IntOfLog<Poly3>); go!(IntOfLog<Poly4>); go!(IntOfLog<Poly5>); go!(IntOfLog<Poly6>); go!(IntOfLog<Poly7>); go!(IntOfLog<Poly8>);
+        go!(IntOfLogPoly4);
+        res
+    }};
+}
+macro_rules! by_seg_type {
+    ($ty:expr; $f:ident($c:expr)) => {{
+        let ty: &str = $ty;
+        let mut res: Option<Vec<u64>> = None;
+        macro_rules! go { ($t:ty) => { if res.is_none() && ty == <Segment<$t> as Num>::name() { res = Some($f::<Segment<$t>>($c)); } } }
+        go!(Poly0); go!(Poly1); go!(Poly2); go!(Poly3); go!(Poly4); go!(Poly5); go!(Poly6); go!(Poly7); go!(Poly8);
+        go!(Log<Poly0>); go!(Log<Poly1>); go!(Log<Poly2>); go!(Log<Poly3>); go!(Log<Poly4>); go!(Log<Poly5>); go!(Log<Poly6>); go!(Log<Poly7>); go!(Log<Poly8>);
+        go!(IntOfLog<Poly0>); go!(IntOfLog<Poly1>); go!(IntOfLog<Poly2>); go!(IntOfLog<Poly3>); go!(IntOfLog<Poly4>); go!(IntOfLog<Poly5>); go!(IntOfLog<Poly6>); go!(IntOfLog<Poly7>); go!(IntOfLog<Poly8>);
+        go!(IntOfLogPoly4);
+        res
+    }};
+}
+
+pub fn op_wire(c: &Value) -> Vec<u64> {
+    let ty = c["ty"].as_str().expect("ty");
+    if ty == "Knot" {
+        return wire_value::<Knot>(c);
+    }
+    if let Some(inner) = ty.strip_prefix("Piecewise<") {
+        let inner = &inner[..inner.len() - 1];
+        return by_type!(inner; wire_pw(c)).unwrap_or_else(|| panic!("HARNESS: wire type {}", ty));
+    }
+    if ty.starts_with("Segment<") {
+        return by_seg_type!(ty; wire_value(c)).unwrap_or_else(|| panic!("HARNESS: wire type {}", ty));
+    }
+    by_type!(ty; wire_value(c)).unwrap_or_else(|| panic!("HARNESS: wire type {}", ty))
 }
